@@ -30,3 +30,36 @@ Definition convert (k : kind) (pol : tiepol) (m : nat) (votes : list (list (list
 Definition oz_eqb (a b : option Z) : bool := match a, b with Some x, Some y => x =? y | None, None => true | _, _ => false end.
 Definition row_eqb (a b : list (option Z)) : bool := (length a =? length b)%nat && forallb (fun p => oz_eqb (fst p) (snd p)) (combine a b).
 Definition prof_eqb (A B : list (list (option Z))) : bool := (length A =? length B)%nat && forallb (fun p => row_eqb (fst p) (snd p)) (combine A B).
+
+(* the data-type guard of the four ordinal converters; categorical instances have their own class *)
+Definition kind_eqb (a b : kind) : bool :=
+  match a, b with SOC, SOC | SOI, SOI | TOC, TOC | TOI, TOI | CAT, CAT => true | _, _ => false end.
+Definition convert_checked (want actual : kind) (pol : tiepol) (m : nat) (votes : list (list (list Z) * nat)) : option (list (list (option Z))) :=
+  if kind_eqb want actual then Some (convert actual pol m votes) else None.
+
+(* validity of a row produced under the 'random' policy: same as 'accept' up to a bijection inside each class *)
+Definition kind_of (i : nat) : kind := match i with 0%nat => SOC | 1%nat => SOI | 2%nat => TOC | 3%nat => TOI | _ => CAT end.
+Definition random_row_ok (k : kind) (m : nat) (order : list (list Z)) (row : list (option Z)) : bool :=
+  let acc := row_of k Accept m order in
+  (length row =? m)%nat &&
+  forallb (fun p => match fst p, snd p with None, None => true | Some _, Some _ => true | _, _ => false end) (combine acc row) &&
+  (* inside every class the ranks are exactly cur .. cur+|class|-1, each once *)
+  forallb (fun cls => match cls with [] => true | a :: _ =>
+            match nth (Z.to_nat (a - 1)) acc None with
+            | Some cur => forallb (fun r => (length (filter (fun b => oz_eqb (nth (Z.to_nat (b - 1)) row None) (Some r)) cls) =? 1)%nat)
+                                  (map (fun i => cur + Z.of_nat i) (seq 0 (length cls)))
+            | None => false end end) order.
+(* case: (declared kind, actual kind, policy 0 accept / 1 first / 2 random, m, votes, observed rows or None for "rejected") *)
+Definition pl_case : Type := (nat * nat * nat * nat * list (list (list Z) * nat) * option (list (list (option Z))))%type.
+Definition chk_pl (c : pl_case) : bool :=
+  let '(want, actual, pol, m, votes, e) := c in
+  match kind_eqb (kind_of want) (kind_of actual), e with
+  | false, None => true
+  | true, Some rows =>
+    match pol with
+    | 2%nat => let exp := flat_map (fun v => repeat (fst v) (snd v)) votes in
+               (length exp =? length rows)%nat && forallb (fun p => random_row_ok (kind_of actual) m (fst p) (snd p)) (combine exp rows)
+    | _ => prof_eqb (convert (kind_of actual) (if (pol =? 0)%nat then Accept else First) m votes) rows
+    end
+  | _, _ => false
+  end.
